@@ -1,7 +1,7 @@
 ------------------------------ MODULE Proxy_Trace ------------------------------
 (* Batch trace validation for C09.  Every trace is what the recording proxy party and the      *)
 (* driver wrote down while the real urllib3 served one scenario: the configuration and the     *)
-(* event log (dial / tls / msg / reply / pclose / start / end).  The monitor is total: it      *)
+(* event log (dial / tls / msg / reply / redir / pclose / start / end).  The monitor is total: it      *)
 (* evaluates every Rules clause of Proxy.tla on the whole log and prints, per trace, the        *)
 (* earliest offending position and the name of the clause (or "ok"), plus the verdict of the    *)
 (* soft extras, and moves on.                                                                   *)
@@ -20,9 +20,9 @@ VARIABLE tid
 tvars == <<vars, tid>>
 
 TInit == /\ tid = 1
-         /\ cfg = "-" /\ nreq = 0 /\ log = <<>> /\ pc = "trace" /\ k = 0 /\ att = 0 /\ slot = NoConn /\ conn = NoConn
-         /\ mode = "-" /\ hdrs = {} /\ target = "" /\ err = <<>> /\ nextcid = 1 /\ nconn = 0 /\ bad = 0
-         /\ script = "-"
+         /\ cfg = "-" /\ nreq = 0 /\ log = <<>> /\ pc = "trace" /\ k = 0 /\ att = 0 /\ hop = 0 /\ curds = "-"
+         /\ carrier = {} /\ slot = "-" /\ conn = NoConn /\ mode = "-" /\ hdrs = {} /\ target = "" /\ err = <<>>
+         /\ nextcid = 1 /\ nconn = "-" /\ bad = 0 /\ script = "-"
 
 TNext == /\ tid <= Len(Traces)
          /\ LET c == NormCfg(Traces[tid].cfg)
